@@ -89,20 +89,34 @@ theorem elementwise_nested (u : PyVal α) :
       List.Forall₂ (fun (p : String × Val α) (r : String × Res α) => p.1 = r.1 ∧ toUnitless p.2 u = .ok r.2) d rs) :=
   ⟨toUnitless_atom u, toUnitless_str u, toUnitless_list u, toUnitless_dict u, toUnitlessList_ok_iff u, toUnitlessDict_ok_iff u⟩
 
-/-- **Plain numeric arrays.** Unless the target is a dimensionless unit of magnitude 1, a plain `np.ndarray` is converted
-    element-wise like a list (same numbers, same refusal). -/
-theorem elementwise_ndarray (xs : List α) (u : PyVal α) (h : (isUnitlessScalar u && u.eqOne) = false) :
-    toUnitless (.ndarray xs) u = (toUnitlessFlat (xs.map .num) u).map (fun ys => Res.list (ys.map .num)) := by
-  rw [toUnitless]; simp only [h]; cases toUnitlessFlat (xs.map PyVal.num) u <;> rfl
+/-- **Plain numeric arrays** (after fix 005cbe4). A plain `np.ndarray` is converted exactly like the list of its elements, for
+    EVERY target: each element `x` becomes `x / u.si` when `u` is dimensionless (scaled ratios such as cm/m, km/m included),
+    and the call raises ValueError when `u` carries a dimension (non-empty array).  The `return value` shortcut is taken only
+    when `u.si = 1`, where it coincides with the element-wise result. -/
+theorem elementwise_ndarray (xs : List α) (u : PyVal α) (hu : u.WF) :
+    toUnitless (.ndarray xs) u = (toUnitlessFlat (xs.map .num) u).map (fun ys => Res.list (ys.map .num)) ∧
+    (u.dims = Dims.zero → toUnitless (.ndarray xs) u = .ok (.list (xs.map fun x => .num (x / u.si)))) ∧
+    (u.dims ≠ Dims.zero → xs ≠ [] → toUnitless (.ndarray xs) u = .error .valueError) := by
+  have h := toUnitless_ndarray xs u hu
+  have hw : ∀ a ∈ xs.map (PyVal.num (α := α)), a.WF := by
+    intro a ha; obtain ⟨x, _, rfl⟩ := List.mem_map.mp ha; trivial
+  obtain ⟨f1, f2⟩ := toUnitlessFlat_spec (xs.map .num) u hw hu
+  refine ⟨h, ?_, ?_⟩
+  · intro hd
+    rw [h, f1 (by intro a ha; obtain ⟨x, _, rfl⟩ := List.mem_map.mp ha; simp [hd])]
+    simp [Except.map, List.map_map, Function.comp]
+  · intro hd hne
+    obtain ⟨x, r, rfl⟩ := List.exists_cons_of_ne_nil hne
+    rw [h, f2 ⟨.num x, by simp, by simpa using fun h' => hd h'.symm⟩]
+    rfl
 
-/-- DEFECT (reported): for a plain `np.ndarray` and a dimensionless target unit of magnitude 1 the array is returned unchanged — the
-    shortcut test `new_unit == 1` compares the bare magnitude, so the scale factor of `cm/m`, `km/m`, … is ignored:
-    `to_unitless(np.array([790.]), cm/m)` gives `[790.]` while the scalar, list and Quantity-array forms give 79000. -/
-theorem ndarray_shortcut_defect_witness :
+/-- the input on which the pinned code used to return the array unconverted (`to_unitless(np.array([790.]), cm/m)`): now 79000,
+    as for the scalar and the list -/
+example :
     let pct : PyVal ℚ := .qty ⟨1, ⟨1/100, Dims.zero⟩⟩
-    (match toUnitless (.ndarray [790]) pct with | .ok (.list [.num x]) => some x | _ => none) = some 790 ∧
+    (match toUnitless (.ndarray [790]) pct with | .ok (.list [.num x]) => some x | _ => none) = some 79000 ∧
     toUnitlessScalar (.num 790) pct = .ok 79000 ∧
-    (match toUnitless (.list [.atom (.num 790)]) pct with | .ok (.list [.num x]) => some x | _ => none) = some 79000 := by
+    (match toUnitless (.ndarray [790]) (.qty ⟨1, ⟨1, Dims.zero⟩⟩ : PyVal ℚ) with | .ok (.list [.num x]) => some x | _ => none) = some 790 := by
   decide +kernel
 
 /-! ## dimensionality, registries, derived units -/
